@@ -52,6 +52,6 @@ DbgSpec == TraceInit /\ [][TReset \/ DCmd \/ DDepart]_<<vars, l>>
 
 \* ---- menu dump: the harness draws its random commands from this list
 DumpInit == /\ Init /\ l = 0
-            /\ PrintT("@@" \o ToJson([menu |-> MenuSeq, init |-> Flat(InitWorld)]))
+            /\ PrintT("@@" \o ToJson([menu |-> MenuSeq, init |-> Flat(InitWorld), priv |-> PrivCases]))
 DumpNext == UNCHANGED <<vars, l>>
 =============================================================================
